@@ -174,7 +174,8 @@ func (u *Universe) sortOf1(t types.Type, key string) Sort {
 	case *types.Array:
 		return ArraySort(SInt, u.SortOf(tt.Elem()))
 	case *types.Map:
-		return u.mapSort(u.SortOf(tt.Key()), u.SortOf(tt.Elem()))
+		u.mapSort(u.SortOf(tt.Key()), u.SortOf(tt.Elem())) // content datatype, used through the heap
+		return SInt
 	case *types.Interface:
 		return SIface
 	case *types.TypeParam:
@@ -354,3 +355,9 @@ func MkIface(typ, val T) T {
 }
 
 var IfaceNil = T{"(mk-iface 0 0)", SIface}
+
+// MapDT is the datatype sort of the contents of a map of Go type t (maps themselves are references).
+func (u *Universe) MapDT(t types.Type) Sort {
+	m := under(t).(*types.Map)
+	return u.mapSort(u.SortOf(m.Key()), u.SortOf(m.Elem()))
+}
